@@ -11,7 +11,12 @@ package centrifuge
 // so the oracle can check that a delta push applies to exactly the data the
 // connection holds.
 
-import "bytes"
+import (
+	"bytes"
+	"time"
+
+	"github.com/centrifugal/protocol"
+)
 
 type c25Delta struct{ base, target []byte }
 
@@ -478,4 +483,79 @@ func vh_C25_retrack_versionless() {
 		vAssert(!pb.Delta && bytes.Equal(pb.Data, newData), "pushed-data-is-the-new-value")
 	}
 	vCover(withHeld && held >= 2, "retrack-with-held-version>=2")
+}
+
+// vh_C25_track_warm_key_race: the real handleSubRefresh/handleTrack for a key
+// that is already warm on the node (entry at version 1 with cached data,
+// KeepLatestData, another connection tracks it). While the track reply of the
+// new connection is being written - after the reply was built, before the
+// connection joins the keyed hub - a SharedPollPublish delivery raises the key
+// to version 2 (c25_publish_in_window). Afterwards the new connection is
+// tracked and holds the newest version the publishers provided, or a
+// broadcast is still pending.
+func vh_C25_track_warm_key_race() {
+	opts := SharedPollChannelOptions{Mode: SharedPollModeVersioned, KeepLatestData: true}
+	n := vNewNode(Config{SharedPoll: SharedPollConfig{GetSharedPollChannelOptions: func(ch string) (SharedPollChannelOptions, bool) {
+		return opts, ch == c25Ch
+	}}})
+	entry := &sharedPollTrackedEntry{version: 1, data: c25InitEntry}
+	s := &sharedPollChannelState{opts: opts, epoch: "e1", workerRunning: true, itemIndex: map[string]*sharedPollTrackedEntry{c25Key: entry}}
+	if n.sharedPollManager == nil {
+		n.sharedPollManager = newSharedPollManager(n)
+	}
+	mgr := n.sharedPollManager
+	mgr.mu.Lock()
+	mgr.channels[c25Ch] = s
+	mgr.mu.Unlock()
+
+	mk := func(user string) *c25Conn {
+		k := c25NewConn(n, user)
+		k.c.mu.Lock()
+		k.c.channels[c25Ch] = ChannelContext{flags: flagSubscribed | flagKeyed | flagClientSideRefresh | flagDeltaAllowed, subGen: k.c.subGenCounter.Add(1)}
+		k.c.mu.Unlock()
+		k.c.OnTrack(func(e TrackEvent, cb TrackCallback) { cb(TrackReply{}, nil) })
+		return k
+	}
+	a := mk("u1")
+	c25Track(a, c25Key, &keyedKeyState{version: 1, deltaReady: true}, 0)
+	b := mk("u2")
+
+	cv := uint64(vChoice("client_version", 2)) // the new tracker presents version 0 or 1
+	inWindow := vChoice("publish_in_window", 2) == 1
+	published := false
+	var reply *protocol.Reply
+	rw := &replyWriter{write: func(rep *protocol.Reply) {
+		reply = rep
+		if inWindow && !published {
+			published = true
+			mgr.handlePublishedData(c25Ch, c25Key, 2, "e1", c25RespData(2))
+		}
+	}}
+	req := &protocol.SubRefreshRequest{Channel: c25Ch, Type: typeTrack,
+		Track: []*protocol.TrackBatch{{Items: []*protocol.KeyedItem{{Key: c25Key, Version: cv}}}}}
+	err := b.c.handleSubRefresh(req, &protocol.Command{Id: 2, SubRefresh: req}, time.Now(), rw)
+	vAssert(err == nil, "track command handled")
+	vSettle()
+	vAssert(reply != nil && reply.Error == nil, "track acknowledged")
+	hub := n.keyedManager.getHub(c25Ch)
+	vAssert(hub != nil && hub.hasSubscriber(c25Key, b.c), "new tracker joined the hub")
+	b.c.mu.RLock()
+	ks := b.c.keyed.trackedKeys[c25Ch][c25Key]
+	var held uint64
+	if ks != nil {
+		held = ks.version
+	}
+	b.c.mu.RUnlock()
+	s.mu.Lock()
+	newest, pending := entry.version, entry.needsBroadcast
+	s.mu.Unlock()
+	vAssert(ks != nil, "key tracked by the connection")
+	// Known finding: only keys classified warm at trackKeys time (server version
+	// above the presented one) are re-read after the hub join. A tracker that
+	// presents the key's CURRENT version is classified up to date, so a publish
+	// landing before its hub join reaches neither the broadcast (not joined yet)
+	// nor a warm delivery, and later polls find the entry unchanged.
+	vKnown("C25-up-to-date-tracker-misses-publish-before-hub-join", cv == 1 && inWindow)
+	vAssert(held >= newest || pending, "tracked connection holds the newest provided version, or a broadcast is pending")
+	vCover(inWindow && newest == 2, "publish-landed-between-reply-and-hub-join")
 }
